@@ -877,6 +877,7 @@ def sweep_date_objects(acc, rng):
     acc.run('networkdays', a, b, [D((2024, 1, 3))], 'col')
     acc.run('networkdays', a, b, [(2024, 1, 2), D((2024, 1, 3)), D((2024, 1, 6))], 'grid')
     acc.run('networkdays', b, a, [D((2024, 1, 3)), D((2024, 1, 3))], 'sheetH')
+    acc.sample({'NETWORKDAYS': ['2024-01-01', '2024-01-31', ['datetime.date(2024, 1, 3)']], 'expected': 22})
 
 
 # ------------------------------------------------------------------ formulas with literal arguments (one workbook per batch)
@@ -1402,7 +1403,7 @@ def run(tier='quick', seed=0):
                 a['samples'].append(s)
     q = tier == 'quick'
     subst = {
-        'tier_box': ('years {1900,1999,2000,2023,2024,100,2100} x months -14..26 x days -70..99' if q else
+        'tier_box': ('years {1900,1999,2000,2023,2024,100,2100} x months -14..26 x days -70..99 (abstract copy: DATE only)' if q else
                      'years {1900,1999,2000,2023,2024,100,2100,1904,2050,2051,2096,2400,9998} x months -30..40 x days -400..400'),
         'tier_shift': ('every day 2023-12-01..2025-03-31 (formulas under overrides: ..2024-03-31) + days 1,15,27..31 of every month of 13 further years 1900..9990' if q else
                        'every day of 1898-1904, 1998-2004, 2020-2028, 2048-2053, 2098-2104 + days 1,15,27..31 of every month of '
